@@ -91,6 +91,11 @@ class _EvalNamespace(_ChainMapPretendDict):
         """Delete from own dict, not from maps."""
         dict.__delitem__(self, key)
 
+    def __ior__(self, other):
+        """Update own dict, not maps."""
+        dict.update(self, other)
+        return self
+
     def pop(self, key, *args):
         """Pop from own dict, not from maps."""
         return dict.pop(self, key, *args)
